@@ -69,6 +69,10 @@ def inputs(tier):
     out.append(("chain_and_pair", [{"summary": f7, "detail": f10, "full": f14, "start": {"u": 1, "v": 2, "w": 3}, "end": {"u": 4, "v": 5, "w": 6}}], None))
     out.append(("two_chains", [{"a0": f7, "a1": f10, "a2": f14, "b0": {f"g{i}": i for i in range(7)}, "b1": {f"g{i}": i for i in range(10)},
                                 "b2": {f"g{i}": i for i in range(14)}}], None))
+    out.append(("permuted_variants", [{"items": [{"a": 1, "b": 2}, {"c": "x"}], "m": {"k1": {"a": 1, "b": 2}, "k2": {"c": 1}}},
+                                      {"items": [{"b": 2, "a": 1}, {"c": "y"}], "m": {"k1": {"b": 2, "a": 1}, "k2": {"c": 2}}}], [r"k\d"]))
+    out.append(("permuted_variants3", [{"items": [{"a": 1, "b": 2, "c": 3}, 5, {"z": "x"}]}, {"items": [{"c": 3, "b": 2, "a": 1}, {"z": "y"}, 5]},
+                                       {"items": [5, {"b": 2, "c": 3, "a": 1}, {"z": "x"}]}], None))
     for n in range(1, len(LIT_POOL) + 1):
         out.append((f"lit{n}", [{"a": s, "b": [s]} for s in LIT_POOL[:n]], None))
     # several fields that go missing together / appear late
@@ -140,17 +144,27 @@ def one(key, fw, layout, merge, tier):
 
 
 # ---- CLI seam ----------------------------------------------------------------------------------
-CLI_INPUTS = ["wide4", "wide3_list", "lit6", "missing_together", "names", "imports"]
+CLI_INPUTS = ["wide4", "wide3_list", "lit6", "missing_together", "names", "imports", "<glob>"]
+
+
+GLOB_FILES = [{"id": 1, "a": "x"}, [{"id": 2, "b": [1]}, {"id": 3, "c": {"d": 1}}], {"id": "4", "e": None, "a": 5}, {"zz": 1.5, "b": ["s"]}]
 
 
 def _cli_case(args):
     key, fw, seed, tier, out_mode = args
-    samples = next(s for k, s, _ in inputs(tier) if k == key)
     d = tempfile.mkdtemp(prefix="c06_")
     try:
-        with open(os.path.join(d, "in.json"), "w") as f:
-            json.dump(samples, f)
-        argv = ["-m", "Root", "in.json", "-f", fw, "--datetime"] + (["-o", "out.py"] if out_mode == "file" else [])
+        if key == "<glob>":
+            # several heterogeneous files matched by one pattern: whatever order the CLI uses, it must not depend on the hash seed
+            for i, content in enumerate(GLOB_FILES):
+                with open(os.path.join(d, f"part_{'abcd'[i]}{i}.json"), "w") as f:
+                    json.dump(content, f)
+            argv = ["-m", "Root", "part_*.json", "-f", fw] + (["-o", "out.py"] if out_mode == "file" else [])
+        else:
+            samples = next(s for k, s, _ in inputs(tier) if k == key)
+            with open(os.path.join(d, "in.json"), "w") as f:
+                json.dump(samples, f)
+            argv = ["-m", "Root", "in.json", "-f", fw, "--datetime"] + (["-o", "out.py"] if out_mode == "file" else [])
         st, so, se = clidrv.run_subprocess(argv, d, hashseed=seed)
         if st != 0:
             return args, "exit:%d" % st
